@@ -140,6 +140,9 @@ func (db *DB) Start(initCheckpoints []recovery.CheckpointHandle) error {
 	db.sstables = latestCP.Levels
 	db.seqNum = latestCP.Levels.LatestSeqNum
 
+	// Don't overwrite the table files the checkpoint refers to.
+	db.tableWriter.ReserveTableIDs(db.sstables)
+
 	// Start a new writer that doesn't write to a file yet.
 	db.wal = wal.NewWriter(db.fs, latestCP.NextWALID(), db.maxWALSize)
 
